@@ -743,6 +743,20 @@ func wireCases(thorough bool) []wireCase {
 			}
 		}
 	}
+	// header order x factory shape: the block that makes the stream gRPC carries grpc-encoding before content-type
+	for _, order := range []int{1, 2} {
+		for _, enc := range []int{encGzip, encSnappy} {
+			for dir := range dirNames {
+				modes := []string{"", "c2s_only"}
+				if dir == dirS2C {
+					modes = []string{"", "s2c_only"}
+				}
+				for _, mode := range modes {
+					out = append(out, wireCase{streams: []wireStream{{config{msgs: []msgSpec{{300, true}, {1, false}}, enc: enc, pl: plLast, dir: dir, ct: "application/grpc", hdrOrder: order}, []int{2}}}, p: wireParams{Factories: mode}})
+				}
+			}
+		}
+	}
 	// several streams of one direction sharing the connection
 	types := []config{}
 	for _, ct := range []string{"application/grpc", "application/json"} {
